@@ -13,8 +13,9 @@ import (
 	"sort"
 	"strings"
 	"sync"
+	"unicode/utf8"
 
-	"verifharness/internal/common"
+	"verifharness/internal/synth"
 )
 
 // ---------- C07: positions and message text ----------
@@ -79,6 +80,9 @@ var artefacts = []string{"<nil>", "PANIC=", "BadExpr", "BadStmt", "BadDecl"}
 // what package fmt writes when verbs and operands do not fit: %!v(MISSING), %!d(string=x), %!(EXTRA ..), %!)(BADINDEX), %!(NOVERB)
 var fmtArtefact = regexp.MustCompile(`%!(.|\pL)?\((MISSING|EXTRA |BADINDEX|BADWIDTH|BADPREC|NOVERB|PANIC=|[A-Za-z_.*\[\]0-9{} ]+=)`)
 
+// a ruleguard template placeholder that reached the user unexpanded: $$, $name or $*name
+var placeholderArtefact = regexp.MustCompile(`\$(\$|\*\w*|[A-Za-z_]\w*)`)
+
 // C07Failure is one violated clause for one diagnostic.
 type C07Failure struct {
 	Class string
@@ -127,6 +131,12 @@ func CheckC07(f *File, starts map[int]bool, d Diag) []C07Failure {
 	}
 	if strings.TrimSpace(d.Text) == "" {
 		out = append(out, C07Failure{"empty-text", "diagnostic message is empty"})
+	}
+	if !utf8.ValidString(d.Text) && utf8.Valid(f.Src) {
+		out = append(out, C07Failure{"text-invalid-utf8", fmt.Sprintf("message is not valid UTF-8 although the analysed file is (a multi-byte character was cut): %q", clip(d.Text, 160))})
+	}
+	if m := placeholderArtefact.FindString(d.Text); m != "" && !strings.Contains(string(f.Src), m) {
+		out = append(out, C07Failure{"text-placeholder", fmt.Sprintf("message contains the unexpanded template placeholder %q: %s", m, clip(d.Text, 160))})
 	}
 	if m := fmtArtefact.FindString(d.Text); m != "" && !strings.Contains(string(f.Src), m) {
 		out = append(out, C07Failure{"text-artefact", fmt.Sprintf("message contains the fmt error marker %q: %s", m, clip(d.Text, 160))})
@@ -258,52 +268,61 @@ func SubjectInventoryFile() string {
 	return filepath.Join(VerifRoot(), "corpus", "c20_subject_inventory.json")
 }
 
-// RuleSubjects derives, for every embedded rule group, the builtin / std functions spelled in its
-// Match patterns (read from the repository's rules.go on every run).
+// irGroup is what the subject derivation reads of one embedded rule group: the patterns and texts of the IR the
+// checkers EXECUTE (rulesdata.PrecompiledRules of the analysed repository, linked into this binary), not the text of rules.go.
+type irGroup struct {
+	Name     string
+	Patterns []string // syntax patterns of all rules
+	Texts    []string // report / suggest templates and the source text of the filters
+}
+
+func irGroups() []irGroup {
+	var out []irGroup
+	byName := map[string]int{}
+	for _, t := range synth.Targets(nil) {
+		i, ok := byName[t.Group]
+		if !ok {
+			i = len(out)
+			byName[t.Group] = i
+			out = append(out, irGroup{Name: t.Group})
+		}
+		out[i].Patterns = append(out[i].Patterns, t.Pattern)
+		out[i].Texts = append(out[i].Texts, t.Rule.ReportTemplate, t.Rule.SuggestTemplate, t.Rule.WhereExpr.Src)
+	}
+	return out
+}
+
+// RuleSubjects derives, for every embedded rule group, the builtin / std functions spelled in the patterns and
+// messages of its executed IR (plus the committed inventory, which survives edits that drop the textual mention).
 func RuleSubjects() map[string][]Subject {
 	ruleSubjOnce.Do(func() {
 		ruleSubjects = map[string][]Subject{}
-		data, err := os.ReadFile(filepath.Join(common.RepoDir, "checkers", "rules", "rules.go"))
-		if err != nil {
-			return
-		}
-		src := string(data)
 		inventory := map[string][]Subject{}
 		if inv, err := os.ReadFile(SubjectInventoryFile()); err == nil {
 			json.Unmarshal(inv, &inventory)
 		}
-		locs := reFuncDecl.FindAllStringSubmatchIndex(src, -1)
-		for i, loc := range locs {
-			name := src[loc[2]:loc[3]]
-			end := len(src)
-			if i+1 < len(locs) {
-				end = locs[i+1][0]
-			}
-			body := src[loc[1]:end]
+		for _, g := range irGroups() {
+			name := g.Name
 			seen := map[Subject]bool{}
-			// every string literal that directly follows "m.Match(" up to the closing ")."
-			for _, mm := range reMatchArg.FindAllStringSubmatch(body, -1) {
-				for _, lit := range reStrLit.FindAllString(mm[1], -1) {
-					pat := lit[1 : len(lit)-1]
-					for _, m := range rePkgCall.FindAllStringSubmatch(pat, -1) {
-						if path, ok := stdQual[m[2]]; ok {
-							seen[Subject{Pkg: path, Name: m[3], Qual: m[2]}] = true
-						}
+			for _, pat := range g.Patterns {
+				for _, m := range rePkgCall.FindAllStringSubmatch(pat, -1) {
+					if path, ok := stdQual[m[2]]; ok {
+						seen[Subject{Pkg: path, Name: m[3], Qual: m[2]}] = true
 					}
-					for _, m := range reBuiltin.FindAllStringSubmatch(pat, -1) {
-						seen[Subject{Name: m[2]}] = true
-					}
+				}
+				for _, m := range reBuiltin.FindAllStringSubmatch(pat, -1) {
+					seen[Subject{Name: m[2]}] = true
 				}
 			}
 			// Report / Suggest / Where texts name the API as well ("possible sync.OnceFunc misuse", "use strings.Cut")
-			for _, lit := range reStrLit.FindAllString(body, -1) {
-				for _, m := range rePkgName.FindAllStringSubmatch(lit[1:len(lit)-1], -1) {
+			for _, lit := range g.Texts {
+				for _, m := range rePkgName.FindAllStringSubmatch(lit, -1) {
 					if path, ok := stdQual[m[2]]; ok {
 						seen[Subject{Pkg: path, Name: m[3], Qual: m[2]}] = true
 					}
 				}
 			}
-			for _, s := range inventory[name] { // committed inventory (survives edits that drop the textual mention)
+			for _, s := range inventory[name] {
 				seen[s] = true
 			}
 			for s := range seen {
@@ -337,34 +356,24 @@ type MethodSubjects struct {
 func RuleMethodSubjects() map[string]*MethodSubjects {
 	ruleMethOnce.Do(func() {
 		ruleMethods = map[string]*MethodSubjects{}
-		data, err := os.ReadFile(filepath.Join(common.RepoDir, "checkers", "rules", "rules.go"))
-		if err != nil {
-			return
-		}
-		src := string(data)
-		locs := reFuncDecl.FindAllStringSubmatchIndex(src, -1)
-		for i, loc := range locs {
-			name := src[loc[2]:loc[3]]
-			end := len(src)
-			if i+1 < len(locs) {
-				end = locs[i+1][0]
-			}
-			body := src[loc[1]:end]
+		for _, g := range irGroups() {
 			ms := &MethodSubjects{Pkgs: map[string]string{}, Methods: map[string]bool{}}
-			for _, m := range reTypeIs.FindAllStringSubmatch(body, -1) {
-				if path, ok := stdQual[m[1]]; ok {
-					ms.Pkgs[path] = m[1] + "." + m[2]
-				}
-			}
-			for _, mm := range reMatchArg.FindAllStringSubmatch(body, -1) {
-				for _, lit := range reStrLit.FindAllString(mm[1], -1) {
-					for _, m := range reVarMethod.FindAllStringSubmatch(lit, -1) {
-						ms.Methods[m[1]] = true
+			// package types named by the filters, and packages whose API the messages recommend (`use time.Since`):
+			// a method-call pattern of such a group is a claim about the methods of that package's types
+			for _, txt := range g.Texts {
+				for _, m := range reTypeIs.FindAllStringSubmatch(txt, -1) {
+					if path, ok := stdQual[m[1]]; ok {
+						ms.Pkgs[path] = m[1] + "." + m[2]
 					}
 				}
 			}
+			for _, pat := range g.Patterns {
+				for _, m := range reVarMethod.FindAllStringSubmatch(pat, -1) {
+					ms.Methods[m[1]] = true
+				}
+			}
 			if len(ms.Pkgs) > 0 && len(ms.Methods) > 0 {
-				ruleMethods[name] = ms
+				ruleMethods[g.Name] = ms
 			}
 		}
 	})
